@@ -2,6 +2,7 @@
 //   opq <kind> <val>                 byte image of tainted<T>, of its to_opaque(), value after from_opaque
 //   opqp <off>                       same for a pointer (off = 0: null)
 //   opqs <a> <b> <poff> <c>          struct S1: opaque round trip field by field + image comparison
+//   opqarg <T|O> <val>               a sandbox function called with tainted<long> / with the tainted_opaque<long> made from it
 //   opqcb <guestval>                 a callback taking and returning tainted_opaque<long>, called by guest code
 //   opqcbf <dbits> <fbits> <guestlong>  a callback taking tainted_opaque<double>, <float>, <long> and returning tainted_opaque<double>
 //   scast <to> <from> <T|V> <val>    sandbox_static_cast<to> of a tainted / tainted_volatile <from>
@@ -31,6 +32,9 @@ cast_fn_t ret_fn();
 static rep_t g_ret_fn_k = 0;
 static rep_t guest_ret_fn() { return g_ret_fn_k; }
 
+// a sandbox function of one long parameter: logs what it observes (guest ABI) and returns it
+long id_long(long);
+static g_t<long> guest_id_long(g_t<long> v);
 long echo_opq(long (*)(long), long);
 static g_t<long> guest_echo_opq(rep_t cb, g_t<long> v)
 {
@@ -43,6 +47,7 @@ static rlbox::tainted_opaque<long, Sbx> cb_opq(sandbox_t&, rlbox::tainted_opaque
   return t.to_opaque();
 }
 
+static g_t<long> guest_id_long(g_t<long> v) { glog(v); return v; }
 double echo_opqf(double (*)(double, float, long), double, float, long);
 static double guest_echo_opqf(rep_t cb, double a, float b, g_t<long> c)
 {
@@ -107,6 +112,17 @@ static std::string run_case(const toks_t& t)
     g_glog.clear();
     auto r = sb.invoke_sandbox_function(echo_opq, cb, parse_val<long>(t.at(1)));
     out = "SAW=" + g_glog + " R=" + show_val(r.UNSAFE_unverified());
+  } else if (op == "opqarg") {
+    // the same application value handed to a sandbox function as tainted<long> (T) or as the tainted_opaque<long> made from it (O)
+    rlbox::tainted<long, Sbx> x = parse_val<long>(t.at(2));
+    g_glog.clear();
+    if (t.at(1) == "O") {
+      auto r = sb.invoke_sandbox_function(id_long, x.to_opaque());
+      out = "SAW=" + g_glog + " R=" + show_val(r.UNSAFE_unverified());
+    } else {
+      auto r = sb.invoke_sandbox_function(id_long, x);
+      out = "SAW=" + g_glog + " R=" + show_val(r.UNSAFE_unverified());
+    }
   } else if (op == "opqcbf") {
     auto cb = sb.register_callback(cb_opqf);
     g_glog.clear();
